@@ -291,6 +291,12 @@ def finalize(mod, tier, seed, agg, capped, wall):
         rc = 1
     if len(fresh) > 25:
         print('  ... and %d more violation classes' % (len(fresh) - 25))
+    if fresh:
+        byc = collections.Counter(v.get('clause') for v in fresh)
+        print('  violation classes by clause: ' + ', '.join('%s=%d' % kv for kv in sorted(byc.items())))
+        if os.environ.get('VT_ALLCLASSES'):
+            for v in fresh:
+                print('  CLASS %s %s' % (v.get('clause'), canon(v.get('sig'))))
     write_evidence(mod, tier, seed, agg, capped, wall, len(fresh))
     nt = len(agg.nt) + agg.nt_count
     print('%s %s: evaluations=%d distinct_nontrivial=%d states=%d transitions=%d '
